@@ -1,7 +1,7 @@
 (* C07 -- client authentication at the token, revocation, introspection and device endpoints. *)
 From Coq Require Import List NArith ZArith Bool Ascii String.
 From Authlib Require Import Base.Bytes Base.PyVal Model.Claims Model.Resource Model.ClientAuth.
-From Authlib Require Import Proofs.ClientAuthP.
+From Authlib Require Import Proofs.ClientAuthP Model.Transport Proofs.TransportP.
 Import ListNotations.
 Open Scope string_scope.
 
@@ -74,3 +74,13 @@ Example auth_examples :
   au base ms "token" = AInvalidClient 401 /\
   au base ["client_secret_post"] "token" = AInvalidClient 400.
 Proof. vm_compute. repeat split. Qed.
+
+(* The credentials the authenticator sees are read out of the request by a wrapper (framework-free, Flask, Django); the
+   model's r_form_* / r_data_* fields are those readings.  The three wrappers read every name alike when no name
+   occurs twice in query and form together, so the outcome proved above is the outcome behind each of them; and a name in
+   both places is read differently by Flask (the example), which is why such requests are compared framework-free only. *)
+Theorem request_wrappers_read_alike :
+  forall q f k, NoDup (Transport.names (q ++ f)%list) ->
+  Transport.flask_data q f k = Transport.neutral_data q f k /\ Transport.django_data q f k = Transport.neutral_data q f k.
+Proof. exact TransportP.readings_agree. Qed.
+Print Assumptions request_wrappers_read_alike.
